@@ -146,6 +146,8 @@ def replay_family(ctx, fam, behs, env=None, race=False, exhaustive_depth=None, b
     ctx.note("replayed %d behaviours x %d worlds of family %s: %d mismatches" % (
         summ["behaviours"], summ["worlds"], fam, summ["mismatches"]))
     seen = set()
+    unreproduced = []
+    nviol0 = len(ctx.violations)
     for mm in mms:
         sig = (mm["world"], mm["op"], mm["key"], mm["want"], mm["got"])
         if sig in seen and len(seen) > 0:
@@ -170,7 +172,8 @@ def replay_family(ctx, fam, behs, env=None, race=False, exhaustive_depth=None, b
                     probe["note"] = "not reproduced on re-run (timing dependent: pending preemption request / stack headroom)"
                     ctx.violation("after %s on %s: %s required=%r real=%r (seen once, timing dependent)" % (mm["op"], mm["world"], mm["key"], mm["want"], mm["got"]), probe)
                     continue
-                raise vlib.Broken("mismatch reproduced neither in isolation nor on the same sequence: %s" % json.dumps(mm))
+                unreproduced.append(mm)
+                continue
             seq = prefix
         ro = {"family": fam, "kind": "mismatch", "env": env or {}, "world": mm["world"], "step": mm["step"], "op": mm["op"],
               "key": mm["key"], "want": mm["want"], "got": mm["got"], "behaviour": beh[: mm["step"] + 1],
@@ -183,6 +186,13 @@ def replay_family(ctx, fam, behs, env=None, race=False, exhaustive_depth=None, b
             classify(ro)
         ctx.violation("after %s (step %d of %s) on %s: %s required=%r real=%r" % (
             mm["op"], mm["step"], [s["op"] for s in beh], mm["world"], mm["key"], mm["want"], mm["got"]), ro)
+    if unreproduced:
+        if not ctx.violations:
+            raise vlib.Broken("mismatch reproduced neither in isolation nor on the same sequence: %s" % json.dumps(unreproduced[0]))
+        # other mismatches of this family WERE reproduced and reported: the real code is not deterministic here (e.g. map
+        # iteration order); the unreproduced ones add nothing and do not turn a confirmed verdict into "machinery broken"
+        ctx.note("%d further mismatches of family %s did not reproduce on re-run (non-deterministic behaviour of the code under test); "
+                 "the verdict rests on the reproduced ones" % (len(unreproduced), fam))
     return summ
 
 
